@@ -318,7 +318,9 @@ def gen_case(rnd, small=False):
             "ims": [[rnd.randint(-8, 8) / 8.0 for _ in range(d)] for _ in range(n)],
             # chains whose target has bounded support (misfit +inf outside a box around its starting model): the partner's
             # state is then usually a model of zero probability for this chain
-            "boxed": [rnd.choice([None, None, 0.25, 1.0]) if rnd.random() < 0.5 else None for _ in range(n)]}
+            "boxed": [rnd.choice([None, None, 0.25, 1.0]) if rnd.random() < 0.5 else None for _ in range(n)],
+            # ... of which some are not +inf but undefined (NaN) outside
+            "boxed_nan": [rnd.random() < 0.4 for _ in range(n)]}
 
 
 def target_class():
@@ -357,9 +359,11 @@ def build(c):
         import math
         while not math.isfinite(t.misfit_value(m)):
             m += 0.125
-    for t, m, hw in zip(targets, ims, c.get("boxed") or [None] * len(targets)):
+    for t, m, hw, un in zip(targets, ims, c.get("boxed") or [None] * len(targets), c.get("boxed_nan") or [False] * len(targets)):
         if hw is not None:
             t.box = ([float(v) - hw for v in m.flatten()], [float(v) + hw for v in m.flatten()])
+            if un:
+                t.outside_value = float("nan")
     return samplers, targets, ims
 
 
